@@ -68,6 +68,10 @@ type SvcCase struct {
 	MidStop    []int        `json:"mid_stop"` // per epoch: <0 clean shutdown at quiescence, else earliest step for Shutdown
 	Optional   []string     `json:"optional"` // enabled optional yield points; ["*"] = all
 	Gate       bool         `json:"gate"`     // hold actors until the service announced itself
+	// OverlapServe: a stopped service is served again by another goroutine
+	// as soon as Shutdown returned, whether or not the previous Serve call
+	// has returned yet
+	OverlapServe bool `json:"overlap_serve,omitempty"`
 	LosePct    int          `json:"lose_pct,omitempty"`
 	PubFailPct int          `json:"pubfail_pct,omitempty"`
 	SubFailAt  int          `json:"subfail_at,omitempty"` // n-th subscribe fails (1-based), 0 = never
@@ -145,6 +149,8 @@ type Engine struct {
 	Subs      []*Submission // indexed by op id
 	bySubject map[string]*Submission
 	Epochs    []*EpochInfo
+	// serveTasks[i] calls Serve for epoch i
+	serveTasks []*sched.Task
 	cur       atomic.Int32 // current epoch index
 	Conn      *simconn.Conn
 
@@ -157,7 +163,7 @@ type Engine struct {
 	QEs                  []*QEInfo
 	curReq               *Submission
 	idleNow              bool
-	subsChecked          bool
+	subsChecked          map[int]bool
 	Mon                  *simconn.Monitor
 	foreignShutdownEpoch int
 
@@ -759,9 +765,19 @@ func (e *Engine) newConn(ep *EpochInfo) *simconn.Conn {
 // actors.
 func (e *Engine) StartActors() {
 	c := e.Case
-	e.Sim.Go("serve", func() {
-		for i := 0; i < c.Epochs; i++ {
+	// one task per epoch: the task of epoch i+1 may call Serve once the Serve
+	// call of epoch i has returned or - OverlapServe: the restart comes from
+	// another goroutine than the one blocked in Serve - once the Shutdown
+	// of epoch i has returned
+	for i := 0; i < c.Epochs; i++ {
+		i := i
+		name := "serve"
+		if i > 0 {
+			name = "serve" + strconv.Itoa(i+1)
+		}
+		e.serveTasks = append(e.serveTasks, e.Sim.Go(name, func() {
 			ep := e.Epochs[i]
+			e.Sim.Yield("serve.wait", strconv.Itoa(i))
 			for try := 0; ; try++ {
 				e.cur.Store(int32(i))
 				e.H.SetEpoch(i)
@@ -786,8 +802,8 @@ func (e *Engine) StartActors() {
 				ep.ServeReturn = e.H.Rec("serve.return", "", 0, ep.ServeErr)
 				break
 			}
-		}
-	})
+		}))
+	}
 	e.Sim.Go("life", func() {
 		for i := 0; i < c.Epochs; i++ {
 			ep := e.Epochs[i]
@@ -830,6 +846,16 @@ func (e *Engine) StartActors() {
 			}
 		})
 	}
+}
+
+// ServeDone reports whether every Serve call has returned.
+func (e *Engine) ServeDone() bool {
+	for _, t := range e.serveTasks {
+		if !t.IsDone() {
+			return false
+		}
+	}
+	return true
 }
 
 // ActorsDone reports whether every scripted actor finished its script.
